@@ -11,12 +11,12 @@ RULE = (
     "Lark tree must contain no _ambig node, the component tree dumped structurally (kind, name, qualifiers in order, operator, children in "
     "order, literal value and type) must equal the generator's AST for EVERY layout, an outer comment without settings must change "
     "nothing, and for programs with a file the run results must be identical across layouts; ASTs: every function name in the factory "
-    "x arity 0..3 x 5 qualifier sets; every component kind (plain/numeric/quoted headers, variables with tracking, strings, signed ints, "
+    "x arity 0..3 x 7 qualifier sets (up to four qualifiers); every component kind (plain/numeric/quoted headers, variables with tracking, strings, signed ints, "
     "decimals, .5, six regexes, ==, =, -> with function and assignment actions); boolean nests to depth 3; 1..3 components; "
     "non-trivial = the AST has >=2 levels; state = (AST shape, layout deviation set)"
 )
 BOUNDS = {
-    "quick": "all factory function names x arity 0..3 x 5 qualifier sets (canonical + every single-gap deviation for unqualified arity<=2); "
+    "quick": "all factory function names x arity 0..3 x 7 qualifier sets (up to four qualifiers) (canonical + every single-gap deviation for unqualified arity<=2); "
     "component kinds and nests to depth 3 with all <=2-gap deviations; 1..3-component programs with run comparison",
     "thorough": "as quick with all single-gap deviations for every function AST, nests to depth 4, <=3-gap deviations for component kinds, and "
     "the whole quick space re-parsed with the grammar memoisation off",
@@ -142,7 +142,7 @@ def fn(name, quals=(), args=()):
 
 H = ["h", "a"]
 ARGS = [H, ["t", "s", "str"], ["t", "1", "int"]]
-QSETS = [[], ["onmatch"], ["nocontrib"], ["myname"], ["myname", "onmatch"]]
+QSETS = [[], ["onmatch"], ["nocontrib"], ["myname"], ["myname", "onmatch"], ["myname", "onmatch", "nocontrib"], ["asbool", "c", "notnone", "onmatch"]]
 REGEXES = ["/a.b/", "/^[a-z]+$/", "/\\d{2}/", "/(x|y)z/", "/a\\/b/", "/\\s+x/"]
 
 
